@@ -288,10 +288,83 @@ func c10Run(u *Unit) {
 	})
 }
 
+// c10Incidents: one manager, one replica, several separate incidents of a transient applier error, each cured by a
+// single START REPLICA and followed by a healthy period with progress: the bookkeeping of cured incidents must not
+// count against later ones.
+func c10Incidents(u *Unit) {
+	hosts := append([]string(nil), haNames[:3]...)
+	master, h := hosts[0], hosts[1]
+	aggressive := u.Idx%2 == 0
+	opts := Opts{HA: hosts, Seed: u.Seed, Workload: true, WorkloadOnly: []string{master}, PreConverged: true,
+		Cfg: func(_ string, c *config.Config) {
+			c.ReplicationRepairAggressiveMode = aggressive
+			c.ReplicationRepairCooldown = c10Cooldown
+			c.ReplicationRepairMaxAttempts = c10Attempts
+			c.Failover = false
+			c.InactivationDelay = 3600 * time.Second
+		}}
+	spec := map[string]any{"family": "repeated_incidents", "aggressive_repair": aggressive}
+	u.Scenario(fmt.Sprintf("c10-%d-incidents", u.Idx), spec, opts, func(sc *Scen) {
+		s := sc.S
+		w := s.W
+		var mu sync.Mutex
+		starts := 0 // START statements to h since the current incident began
+		w.Lock()
+		w.AfterStmt = append(w.AfterStmt, func(w *world.World, c *world.StmtCtx) {
+			if c.Host != h || !strings.HasPrefix(c.Caller, "mysync_") || c.Errno != 0 {
+				return
+			}
+			mu.Lock()
+			defer mu.Unlock()
+			switch c.Class {
+			case "start_replica", "start_sql", "start_io":
+				starts++
+			case "reset_replica":
+				if starts < c10Attempts {
+					sc.Violate("C10", "reset-before-the-cheaper-method-was-exhausted", fmt.Sprintf("%s reset the replication configuration of %s after only %d START attempts in the current incident (limit %d per method)", c.Caller, h, starts, c10Attempts))
+				}
+				if !aggressive {
+					sc.Violate("C10", "reset-without-aggressive-mode", fmt.Sprintf("%s reset the replication configuration of %s although aggressive repair is off", c.Caller, h))
+				}
+			}
+		})
+		w.Unlock()
+		s.Start()
+		time.Sleep(22 * time.Second)
+		n := 2*c10Attempts + 1
+		for k := 1; k <= n; k++ {
+			mu.Lock()
+			starts = 0
+			mu.Unlock()
+			w.Manual(h, "transient applier error 1205", func(x *world.Server) { x.LastSQLErrno = 1205 })
+			ok := s.WaitUntil(c10Cooldown+25*time.Second, time.Second, func() bool {
+				x := w.Snapshot()[h]
+				return x.Source == master && x.IORun && x.SQLRun && x.LastSQLErrno == 0 && x.LastIOErrno == 0 && !x.Offline
+			})
+			if !ok {
+				sc.Violate("C10", "transient-error-not-repaired", fmt.Sprintf("incident %d of %d on %s (each cured by one START REPLICA, healthy with progress for longer than the cooldown in between) was not repaired within %v", k, n, h, c10Cooldown+25*time.Second), w.Describe())
+				break
+			}
+			sc.Coverf("incidents|aggr=%v|k=%d", aggressive, k)
+			time.Sleep(c10Cooldown + 12*time.Second) // healthy, the master keeps writing
+		}
+		sc.Cover("repeated-incidents")
+		sc.Obs("%d separate transient incidents on %s (aggressive=%v)", n, h, aggressive)
+	})
+}
+
+func c10Dispatch(u *Unit) {
+	if u.Idx >= tierN(u.Job.Tier, 576, 4608) {
+		c10Incidents(u)
+		return
+	}
+	c10Run(u)
+}
+
 func init() {
-	register(&Prop{ID: "C10", Units: func(tier string) int { return tierN(tier, 576, 4608) }, Run: c10Run,
+	register(&Prop{ID: "C10", Units: func(tier string) int { return tierN(tier, 576, 4608) + tierN(tier, 16, 64) }, Run: c10Dispatch,
 		Floor: func(string) []string {
-			f := []string{"stale-master", "aggressive-reset", "permanent-error-of-a-wrong-source"}
+			f := []string{"stale-master", "aggressive-reset", "permanent-error-of-a-wrong-source", "repeated-incidents"}
 			for _, x := range c10Sources {
 				f = append(f, "source:"+x)
 			}
@@ -303,5 +376,5 @@ func init() {
 			}
 			return f
 		},
-		Rule: "unit = initial state of a 3-4 node cluster: the first non-master node walks the grid read-only x offline x source {none, master, another replica, an unregistered decoy} x threads {running, stopped, IO error, SQL error, error cured by a reset only, permanent error code, permanent error code caused by the current source, applier error recurring even after a reset} x semi-sync flag (384 cells, all in thorough x 4 configurations, a prefix in quick), the other nodes and the master's flags are seeded; optionally every k-th mutating statement fails, and on a third of the shapes the first START REPLICA after a RESET REPLICA ALL fails once (error 1872); a decoy server exists in every run; bounded convergence is judged on ground truth after K iterations, safety clauses at every event; distinct by (configuration, master flags, grid cell, failure schedule)"})
+		Rule: "(plus 16 units of 7 separate transient incidents on one replica under one manager, each cured by one START and followed by a healthy period: every incident must be repaired, no reset before the cheaper method was exhausted in that incident) unit = initial state of a 3-4 node cluster: the first non-master node walks the grid read-only x offline x source {none, master, another replica, an unregistered decoy} x threads {running, stopped, IO error, SQL error, error cured by a reset only, permanent error code, permanent error code caused by the current source, applier error recurring even after a reset} x semi-sync flag (384 cells, all in thorough x 4 configurations, a prefix in quick), the other nodes and the master's flags are seeded; optionally every k-th mutating statement fails, and on a third of the shapes the first START REPLICA after a RESET REPLICA ALL fails once (error 1872); a decoy server exists in every run; bounded convergence is judged on ground truth after K iterations, safety clauses at every event; distinct by (configuration, master flags, grid cell, failure schedule)"})
 }
